@@ -14,7 +14,7 @@ BASE = dict(
     Accts=2, AccountSlots=16, GlobalSlots=64, AccountQueue=64, GlobalQueue=64, PriceLimit=1, PriceBump=10,
     InitLocals=[], NoLocals=False, UseJournal=False, BlackAccts=[],
     MaxNonce=2, Prices=[20], Kinds=["s"], ExtraTx=[], ResetNonces=[0, 1, 2, 3], Bals=[5000000], GasLimits=[1000000],
-    InitBal=5000000, InitGas=1000000, Floors=[1], Acts=["ar", "al", "rs"], Depth=4, MaxMine=2)
+    InitBal=5000000, InitGas=1000000, Floors=[1], Acts=["ar", "al", "rs"], Depth=4, MaxMine=2, Batches=[])
 
 
 def V(tag, depth_q, depth_t, stride_q=1, stride_t=1, q=None, t=None, **kw):
@@ -83,6 +83,17 @@ VECTORS = [
     V("heapdup", 8, 9, 1, 1, Accts=4, Prices=[], ExtraTx=[(1, 0, 10, "s"), (2, 0, 20, "s"), (2, 1, 20, "s"), (3, 0, 20, "s"), (4, 0, 30, "w")],
       AccountSlots=2, GlobalSlots=2, AccountQueue=2, GlobalQueue=2, InitBal=60000000, ResetAccts=[1], ResetNonces=[0], Bals=[0, 60000000],
       Acts=["ar", "rs"], TrackGhosts=True),
+    # whole batches through AddRemotesSync / AddLocals: runs of pre-filtered elements (pooled duplicates, bad signatures)
+    # in front of and between new ones (unaffordable, valid); the per-slot outcome vector and the pool are compared
+    V("batchvec", 3, 4, 1, 1, Prices=[], InitBal=2500000, Bals=[2500000],
+      ExtraTx=[(1, 0, 20, "s"), (1, 1, 20, "s"), (2, 0, 20, "s")],
+      Batches=[[(1, 0, 20, "s"), (1, 1, 20, "s"), (2, 0, 20, "v"), (2, 0, 20, "s")],
+               [(1, 0, 20, "x"), (2, 0, 20, "x"), (2, 0, 20, "v"), (1, 2, 20, "s")],
+               [(1, 0, 20, "s"), (1, 0, 20, "x"), (2, 0, 20, "v"), (1, 1, 20, "s")],
+               [(1, 0, 20, "s"), (1, 1, 20, "s"), (1, 2, 20, "s")],
+               [(1, 0, 20, "s"), (2, 0, 20, "s"), (1, 1, 20, "s")],
+               [(1, 0, 20, "s"), (1, 1, 20, "s"), (1, 0, 20, "x"), (2, 1, 20, "s"), (2, 0, 20, "v")]],
+      Acts=["ar", "bb", "bl"]),
     # batches of two (AddRemotesSync as the reactor calls it), tight limits
     V("batch", 3, 5, 1, 1, MaxNonce=1, Prices=[10, 20], AccountSlots=1, GlobalSlots=1, AccountQueue=1, GlobalQueue=1,
       ResetNonces=[0, 1], Bals=[1500000, 5000000], Acts=["ab", "al", "rs"]),
@@ -141,7 +152,8 @@ def tla_bool(b):
 
 def mc_files(v, depth, fix, invariants, dump=True):
     name = "MCgen"
-    mod = "---- MODULE %s ----\nEXTENDS MC_TxPool\nExtraTxV == %s\n====\n" % (name, tla_set(v["ExtraTx"]))
+    mod = "---- MODULE %s ----\nEXTENDS MC_TxPool\nExtraTxV == %s\nBatchesV == %s\n====\n" % (
+        name, tla_set(v["ExtraTx"]), tla_set(v["Batches"]))
     cfg = ["SPECIFICATION Spec", "CONSTANTS",
            "  Accts = %s" % tla_set(range(1, v["Accts"] + 1))]
     for k in ("AccountSlots", "GlobalSlots", "AccountQueue", "GlobalQueue", "PriceLimit", "PriceBump", "MaxNonce",
@@ -156,6 +168,7 @@ def mc_files(v, depth, fix, invariants, dump=True):
     for k, b in fix.items():
         cfg.append("  %s = %s" % (k, tla_bool(b)))
     cfg.append("  ExtraTx <- ExtraTxV")
+    cfg.append("  Batches <- BatchesV")
     cfg.append("  Depth = %d" % depth)
     cfg.append("VIEW View")
     for i in invariants:
